@@ -15,7 +15,7 @@ import copy
 import re
 import signal
 
-from ..core import Ctx, Violation, explore
+from ..core import jhash, Ctx, Violation, explore
 from ..gen import c06_fold as G
 from ..gen import c06_mutate as MU
 from ..model import c06_flat as M
@@ -35,7 +35,7 @@ ASSUMPTIONS = [
     "arguments; only uniqueness of (stage, name) is required",
     "step names that end in a digit and instantiate a component: either a correct compilation or a located "
     "DSLInvalidError is accepted (the model accepts such names, FlowIR reserves trailing digits for replicas)",
-    "no replicate/aggregate attributes, no key outputs / interface, no input./data. entry parameters",
+    "no replicate/aggregate attributes, key outputs only as :ref references to leaf steps, no interface, no input./data. entry parameters",
     "a compile that burns more than 5 s (and, on a second attempt, 10 s) of CPU time for a <=8-step namespace is "
     "reported as a hang (never shrunk: the mutated document is reported as generated)",
     "'lists the offending locations': every underlying error of DSLInvalidError must be a DSLInvalidFieldError; an "
@@ -154,7 +154,24 @@ def check_valid(case, ctx: Ctx):
     if "valid-namespace-hangs" in ctx.excluded and not ctx.replaying:
         ctx.rec.excluded["valid-namespace-hangs"] += 1
         return
+    # half of the cases: the entrypoint declares key outputs that point at (up to three of) the leaf steps; they are
+    # output references like any other and must name the component that the step instance was compiled to
+    key_outputs = {}
+    paths = case.get("where") or {}
+    if paths and jhash([doc, "key-outputs"]) % 2 == 0:
+        tags = sorted(paths)
+        picked = sorted({tags[jhash([doc, i]) % len(tags)] for i in range(3)} | {tags[-1]})
+        doc = copy.deepcopy(doc)
+        doc["entrypoint"]["output"] = [{"name": "k-%s" % t, "data-in": "<%s>/out.txt:ref" % paths[t]} for t in picked]
+        key_outputs = {"k-%s" % t: t for t in picked}
     kind, res = compile_doc(doc, case.get("override"), validate=True)
+    if key_outputs and kind == "dsl" and res.underlying_errors and all(
+            list(getattr(e, "location", []))[:2] == ["entrypoint", "output"] or "output" in str(getattr(e, "location", ""))
+            for e in res.underlying_errors):
+        # the compiler does not accept this spelling of a key output: not this check's business, carry on without them
+        ctx.rec.label("v:key-outputs-rejected")
+        doc, key_outputs = case["doc"], {}
+        kind, res = compile_doc(doc, case.get("override"), validate=True)
     where = "leaf steps at %s" % case.get("where")
     if kind == "model":
         raise Violation("valid-namespace-rejected-by-model", "%s\n%s" % (str(res)[:600], where))
@@ -176,10 +193,22 @@ def check_valid(case, ctx: Ctx):
     res, errors = res
     raw = res.raw()
     try:
-        M.compare(flat, raw.get("components", []), _parse_reference,
-                  (raw.get("environments") or {}).get("default") or {})
+        ident = M.compare(flat, raw.get("components", []), _parse_reference,
+                          (raw.get("environments") or {}).get("default") or {})
     except M.Mismatch as m:
         raise Violation(m.sig, "%s\n%s" % (m.message, where))
+    if key_outputs:
+        leaf_of = {l["tag"]: i for i, l in enumerate(flat["leaves"])}
+        got = raw.get("output") or {}
+        for name, tag in sorted(key_outputs.items()):
+            st_, nm = ident[leaf_of[tag]]
+            want = "stage%d.%s/out.txt:ref" % (st_, nm)
+            have = (got.get(name) or {}).get("data-in")
+            if have != want:
+                raise Violation("key-output-names-wrong-component",
+                                "key output %s (data-in <%s>/out.txt:ref) compiles to %r, the step instance is component "
+                                "%s\n%s" % (name, paths[tag], have, want, where))
+        ctx.rec.label("v:key-outputs-checked")
     if errors:
         raise Violation("compiled-flowir-fails-validation", "%s\n%s" % ([str(e)[:300] for e in errors[:4]], where))
     ctx.rec.label(*["v:" + l for l in meta["labels"]])
